@@ -128,6 +128,9 @@ func (fr *Frame) havocHeapKey(st *State, k, bound string, refs []modRef, inner [
 	guard := fmt.Sprintf("(<= %s %s)", q, bound)
 	if len(perm) > 0 {
 		guard = fmt.Sprintf("(and %s (not %s))", guard, orOf(perm))
+		if !strings.HasPrefix(k, "E:") {
+			guard = fmt.Sprintf("(or (= %s 0) %s)", q, guard) // the nil map is never written, whatever the permission says
+		}
 	}
 	fr.assume(st, fmt.Sprintf("(forall ((%s Int)) (! (=> %s (= (select %s %s) (select %s %s))) :pattern ((select %s %s))))", q, guard, nh, q, old, q, nh, q))
 	if strings.HasPrefix(k, "E:") {
